@@ -277,13 +277,17 @@ class Ctx(Result):
                 self._take(_run_job(modname, fname, j))
             return
         ctx = mp.get_context("spawn")
-        # workers are recycled after a few jobs: every XLA compilation maps executable memory that is never
-        # returned, and a long-lived worker eventually hits the process's map limit ("Cannot allocate memory")
-        with ProcessPoolExecutor(max_workers=nw, mp_context=ctx, initializer=_worker_init,
-                                 max_tasks_per_child=tasks_per_child) as ex:
-            futs = [ex.submit(_run_job, modname, fname, j) for j in jobs]
-            for f in as_completed(futs):
-                self._take(f.result())
+        # Workers are recycled after a few jobs: every XLA compilation maps executable memory that is never returned,
+        # and a long-lived worker eventually hits the process's map limit ("Cannot allocate memory").
+        # (ProcessPoolExecutor's own max_tasks_per_child dead-locks on Python 3.12.1, so the jobs are simply run in
+        # rounds, each round on a fresh pool.)
+        per_round = len(jobs) if not tasks_per_child else nw * tasks_per_child
+        for r0 in range(0, len(jobs), per_round):
+            chunk = jobs[r0:r0 + per_round]
+            with ProcessPoolExecutor(max_workers=min(nw, len(chunk)), mp_context=ctx, initializer=_worker_init) as ex:
+                futs = [ex.submit(_run_job, modname, fname, j) for j in chunk]
+                for f in as_completed(futs):
+                    self._take(f.result())
 
     def _take(self, out):
         if "_error" in out:
